@@ -47,6 +47,12 @@ func CopyLogs(ctx context.Context, dst, src raft.LogStore, batchBytes int, progr
 		return fmt.Errorf("failed getting last index: %w", err)
 	}
 
+	if last == 0 {
+		// Empty source log: nothing to copy (index 0 is not a log entry).
+		update("DONE: source log is empty, nothing to copy")
+		return nil
+	}
+
 	batch := make([]*raft.Log, 0, 4096)
 	batchSize := 0
 	n := 0
